@@ -96,6 +96,10 @@ def jobs(pid, tier):
         return [seq('C13')]
     if pid == 'C14':
         return [seq('C14')]
+    if pid == 'C15':
+        return [seq('C15')]
+    if pid == 'C18':
+        return [seq('C18')]
     if pid == 'C10':
         return [seq('C10')]
     if pid == 'C09':
